@@ -229,7 +229,7 @@ func c14Rules(p *core.Prog, r *core.Run) {
 	r.Floor("C14.N3", 4)
 
 	// --- N4
-	c14OwnerFilter(p, r, noc)
+	c14OwnerFilter(p, r, noc, "C14.N4")
 
 	// --- N5
 	c14Rcode(p, r, noc)
@@ -393,12 +393,34 @@ func variadicArgs(p *core.Prog, v ssa.Value) []*core.Expr {
 }
 
 // c14ValidName: validName enforces 255 / 63.
+// liveAlts: the values v can have: v itself, or for a φ the values of the ways
+// in that the view keeps (all of them without a view).
+func liveAlts(cfg *core.PrunedCFG, v ssa.Value, depth int) []ssa.Value {
+	ph, ok := v.(*ssa.Phi)
+	if !ok || depth > 4 {
+		return []ssa.Value{v}
+	}
+	var out []ssa.Value
+	for i, e := range ph.Edges {
+		if cfg != nil && !cfg.EdgeLive(ph.Block().Preds[i], ph.Block()) {
+			continue
+		}
+		out = append(out, liveAlts(cfg, e, depth+1)...)
+	}
+	return out
+}
+
 func c14ValidName(p *core.Prog, r *core.Run, vn *ssa.Function) {
 	cfg, hits := pruneBy(p, vn, []assumption{cmpAssume("len(name) > 255", ">", func(e *core.Expr) bool { return e.Op == "call" && e.Name == "len" && e.Args[0].Op == "param" }, isConstName("255"))})
 	ok := len(hits["len(name) > 255"]) > 0
 	for _, ret := range core.Returns(vn) {
-		if cfg.Live(ret.Block()) && p.X(ret.Results[0]).Name != "false" {
-			ok = false
+		if !cfg.Live(ret.Block()) {
+			continue
+		}
+		for _, v := range liveAlts(cfg, ret.Results[0], 0) {
+			if p.X(v).Name != "false" {
+				ok = false
+			}
 		}
 	}
 	r.Check("C14.N1", "validName:255", ok, p.Pos(vn.Pos()), "validName refuses names longer than 255 bytes")
@@ -435,12 +457,14 @@ func c14ValidName(p *core.Prog, r *core.Run, vn *ssa.Function) {
 			// validName is false whenever the search finds one
 			neg := true
 			for _, ret := range core.Returns(vn) {
-				e := p.X(ret.Results[0])
-				if e.Op == "const" && e.Name == "false" {
-					continue
-				}
-				if !(e.Op == "un" && e.Name == "!" && e.Args[0].Val == s.Instr.(ssa.Value)) && !(e.Op == "const" && e.Name == "true" && core.HasFact(p.Facts(ret.Block()), "false", `slices\.ContainsFunc\(.*`, "")) {
-					neg = false
+				for _, rv := range liveAlts(nil, ret.Results[0], 0) {
+					e := p.X(rv)
+					if e.Op == "const" && e.Name == "false" {
+						continue
+					}
+					if !(e.Op == "un" && e.Name == "!" && e.Args[0].Val == s.Instr.(ssa.Value)) && !(e.Op == "const" && e.Name == "true" && core.HasFact(p.Facts(ret.Block()), "false", `slices\.ContainsFunc\(.*`, "")) {
+						neg = false
+					}
 				}
 			}
 			if pred && neg {
@@ -522,7 +546,7 @@ func c14ValidName(p *core.Prog, r *core.Run, vn *ssa.Function) {
 	r.Check("C14.N1", "validName:63", okL, p.Pos(vn.Pos()), "validName refuses any dot-separated label longer than 63 bytes")
 }
 
-func c14OwnerFilter(p *core.Prog, r *core.Run, noc *ssa.Function) {
+func c14OwnerFilter(p *core.Prog, r *core.Run, noc *ssa.Function, rule string) {
 	isOwner := func(e *core.Expr) bool {
 		return e.Op == "call" && e.Name == "strings.TrimSuffix" && e.Args[0].Op == "field" && e.Args[0].Name == "Name" && e.Args[0].Args[0].Op == "index"
 	}
@@ -551,11 +575,11 @@ func c14OwnerFilter(p *core.Prog, r *core.Run, noc *ssa.Function) {
 				typ = true
 			}
 		}
-		r.Check("C14.N4", "lookup:use-record", owner && typ, p.InstrPos(s.Instr), "a record's data is returned only when its owner name equals the name being followed (%v) and its type is the type asked for (%v)", owner, typ)
+		r.Check(rule, "lookup:use-record", owner && typ, p.InstrPos(s.Instr), "a record's data is returned only when its owner name equals the name being followed (%v) and its type is the type asked for (%v)", owner, typ)
 	}
-	r.Check("C14.N4", "lookup:use-sites", n == 1, p.Pos(noc.Pos()), "one place collects record data (found %d)", n)
+	r.Check(rule, "lookup:use-sites", n == 1, p.Pos(noc.Pos()), "one place collects record data (found %d)", n)
 	if wantPhi == nil {
-		r.Check("C14.N4", "lookup:want", false, p.Pos(noc.Pos()), "the name being followed is not carried through the answer loop")
+		r.Check(rule, "lookup:want", false, p.Pos(noc.Pos()), "the name being followed is not carried through the answer loop")
 		return
 	}
 	// inputs of want: the queried name, or a CNAME target under owner == want && type == 5
@@ -594,15 +618,15 @@ func c14OwnerFilter(p *core.Prog, r *core.Run, noc *ssa.Function) {
 				if !(owner && cname) {
 					okIn = false
 				}
-				r.Check("C14.N4", "lookup:follow-cname", owner && cname, p.InstrPos(ph), "the name being followed changes to a CNAME's target only when that CNAME (type 5: %v) is owned by the current name (%v): a CNAME attached to an unrelated owner must not redirect the lookup", cname, owner)
+				r.Check(rule, "lookup:follow-cname", owner && cname, p.InstrPos(ph), "the name being followed changes to a CNAME's target only when that CNAME (type 5: %v) is owned by the current name (%v): a CNAME attached to an unrelated owner must not redirect the lookup", cname, owner)
 				continue
 			}
 			okIn = false
-			r.Check("C14.N4", "lookup:want-input", false, p.InstrPos(ph), "the name being followed is set from %s", short(x))
+			r.Check(rule, "lookup:want-input", false, p.InstrPos(ph), "the name being followed is set from %s", short(x))
 		}
 	}
 	visit(wantPhi)
-	r.Check("C14.N4", "lookup:want-chain", okIn && nCname == 1, p.InstrPos(wantPhi), "the followed name starts as the queried name and moves only along the in-answer CNAME chain")
+	r.Check(rule, "lookup:want-chain", okIn && nCname == 1, p.InstrPos(wantPhi), "the followed name starts as the queried name and moves only along the in-answer CNAME chain")
 }
 
 // c14CachedErrors: the error a response code maps to must also reach the
@@ -855,13 +879,29 @@ func c14Sorted(p *core.Prog, r *core.Run, rs, rt *ssa.Function, rule string) {
 		}
 		less := false
 		if cl := s.X.Args[1]; cl.Op == "closure" && cl.Fn != nil {
+			// every answer of the less function is the comparison of the two
+			// priorities, or breaks a tie between equal ones
+			prio := func(e *core.Expr, who string) bool {
+				return e.Op == "field" && e.Name == "Priority" && e.Args[0].Op == "index" && e.Args[0].Args[1].Name == who
+			}
+			nCmp, nOther := 0, 0
 			for _, ret := range core.Returns(cl.Fn) {
 				x := p.X(ret.Results[0])
-				if x.Op == "bin" && x.Name == "<" && x.Args[0].Op == "field" && x.Args[0].Name == "Priority" && x.Args[1].Op == "field" && x.Args[1].Name == "Priority" &&
-					x.Args[0].Args[0].Op == "index" && x.Args[1].Args[0].Op == "index" && x.Args[0].Args[0].Args[1].Name == "c0" && x.Args[1].Args[0].Args[1].Name == "c1" {
-					less = true
+				if x.Op == "bin" && x.Name == "<" && prio(x.Args[0], "c0") && prio(x.Args[1], "c1") {
+					nCmp++
+					continue
+				}
+				tie := false
+				for _, f := range p.Facts(ret.Block()) {
+					if f.Op == "==" && f.R != nil && (prio(f.L, "c0") && prio(f.R, "c1") || prio(f.L, "c1") && prio(f.R, "c0")) {
+						tie = true
+					}
+				}
+				if !tie {
+					nOther++
 				}
 			}
+			less = nCmp >= 1 && nOther == 0
 		}
 		// no append to result.HTTPS may follow the sort; target resolution follows it
 		later, handedOver := false, false
